@@ -18,8 +18,9 @@ is the conjunction of match_accessor and match_access_desc; (f) group accessors:
 constant true only when the mode is not Group, otherwise the membership lookup of the accessor's own fabric and group.
 """
 CLAUSES = ['a: fabric separation', 'b: implicit PASE grant is exactly that', 'c: privilege lattice constants and mask test',
-           'd: CAT id equal, version greater-or-equal', 'e: single evaluation chain', 'f: group accessors reach member endpoints only']
-NOT_DECIDED = ['equality with a reference decision over all entries x accessors x targets (value-level)', 'target/device-type matching details']
+           'd: CAT id equal, version greater-or-equal', 'e: single evaluation chain', 'f: group accessors reach member endpoints only',
+           'g: identifiers are compared at full width (no truncating cast in the matching code)']
+NOT_DECIDED = ['equality with a reference decision over all entries x accessors x targets (value-level)', 'target/device-type matching details beyond comparison width']
 MIN_OBLIGATIONS = {'q': 25, 'd': 20, 'r': 25}
 
 
@@ -249,6 +250,29 @@ def check(R):
             R.cut('P2', mem, 'membership result', [bb for bb, k, p in rd if k == 'call'], 'the accessor\'s fabric exists', lambda: R.call_guard(mem, 'fabric::Fabrics::get'))
             inner = closure_in(R, 'acl::Accessor::is_endpoint_accessible', ['contains'])
             R.expect('P4', inner.fn, 'membership is endpoints.contains(&endpoint_id)', True, 'located by content', '')
+
+    # ---- g --------------------------------------------------------------------
+    with R.clause('g'):
+        # identifiers are compared at full width: the entry-matching code (subjects, targets, device types, CATs) contains no integer
+        # cast that can lose bits - a target for device type 0xFFF1_0100 must not match an endpoint of type 0x0100
+        import p7
+        mb = [b for b in F.bodies.values() if b.focus and '::tests::' not in b.fn and b.fn.lstrip('<').startswith(('acl::AclEntry::match_', 'acl::AccessorSubjects::matches', 'acl::AclEntry::allow',
+                                                                                                                'acl::AccessReq::allow', 'fabric::Fabric::allow', 'fabric::Fabrics::allow'))]
+        R.floor('entry-matching bodies', len(mb), 6)
+        ncast = 0
+        for b in sorted(mb, key=lambda b: b.fn):
+            for i, j, st in b.stmts():
+                rv = st[1]
+                if rv.get('op') != 'cast' or rv.get('ck') != 'IntToInt' or b.is_cleanup(i):
+                    continue
+                dt = b.local_ty(st[0][0]) if len(st[0]) == 1 else None
+                if dt not in p7.INT_BITS:
+                    continue
+                ncast += 1
+                need = p7.max_bits(b, rv['a'][0]) or p7._ty_bits(b, rv['a'][0]) or 128
+                R.expect('P6', b.fn, f'integer cast #{ncast} ({p7.expr_key(b, rv["a"][0])} as {dt}) keeps every bit', need <= p7.INT_BITS[dt], f'{need} bits into {dt}',
+                         f'{p7.expr_key(b, rv["a"][0])} ({need} bits) is truncated to {dt}: two different identifiers can compare equal', b.where(i, j))
+        R.floor('integer casts examined in the matching code', ncast, 1)
 
 
 def _false_edges(R, body, site):
